@@ -1538,8 +1538,11 @@ def window_cube_oracle(c, impl):
     return None
 
 
-def shape_oracle(c, impl):
+def shape_oracle(c, impl, strict=True):
+    """strict=False forgives symmetry mismatches of binary hexagon samples that sit within 1e-9 of an edge (float
+    ties); strict=True (what the check uses) reports them after everything else has been checked"""
     op = c['op']
+    ties = []
     if 'err' in impl:
         return f'{op} raised {impl["err"]}'
     a = impl['arr']
@@ -1573,7 +1576,12 @@ def shape_oracle(c, impl):
                 return x == y
             if c['aa']:
                 return abs(x - y) <= 1e-12
-            return x == y or mg[i][j] <= 1e-9 or mg[i2][j2] <= 1e-9
+            if x == y:
+                return True
+            if mg[i][j] <= 1e-9 or mg[i2][j2] <= 1e-9:
+                ties.append(((i - ci, j - cj), x, (i2 - ci, j2 - cj), y))
+                return True
+            return False
         for i in range(n):
             for j in range(m):
                 i2, j2 = 2 * ci - i, 2 * cj - j
@@ -1584,7 +1592,33 @@ def shape_oracle(c, impl):
                         return f'{op}: not invariant under the row mirror: ({i},{j}) vs ({i2},{j})'
                     if 0 <= j2 < m and not same(a[i][j], a[i][j2], i, j, i, j2):
                         return f'{op}: not invariant under the column mirror: ({i},{j}) vs ({i},{j2})'
+    if ties and strict:
+        p, x, q, y = ties[0]
+        return (f'{op}: not invariant under the half-turn / mirror about the origin sample: the sample at {p} (relative '
+                f'to the origin sample) is {x!r}, its image at {q} is {y!r}; both lie exactly on the hexagon outline '
+                f'(a vertex), where the six float normals break the tie differently')
     return None
+
+
+def vertex_tie_only(c, impl):
+    """the ONLY asymmetry of this binary, centred, rotated hexagon of integer radius R is the pair of vertex samples
+    (-R, 0) / (+R, 0) (relative to the origin sample), and everything else the oracle checks holds"""
+    if not (c['op'] == 'hexagon' and not c['aa'] and c['rotate'] and c['shift'] == ['0', '0'] and 'err' not in impl):
+        return False
+    R = Fraction(c['radius'])
+    if R.denominator != 1 or R <= 0 or shape_oracle(c, impl, strict=False) is not None:
+        return False
+    a = impl['arr']
+    n, m = c['shape']
+    ci, cj = n // 2, m // 2
+    R = int(R)
+    bad = set()
+    for i in range(n):
+        for j in range(m):
+            for i2, j2 in ((2 * ci - i, 2 * cj - j), (2 * ci - i, j), (i, 2 * cj - j)):
+                if 0 <= i2 < n and 0 <= j2 < m and a[i][j] != a[i2][j2]:
+                    bad.add(frozenset(((i - ci, j - cj), (i2 - ci, j2 - cj))))
+    return bad == {frozenset(((-R, 0), (R, 0)))}
 
 
 def deepen_oracle(c, impl):
@@ -1713,6 +1747,8 @@ def hexseg_oracle(c, impl):
 
 def known_match(f, c, impl):
     c = scaled(c)
+    if f['id'] == 'C20-hexagon-vertex-float-tie':
+        return vertex_tie_only(c, impl)
     if f['id'] == 'C20-window-slice-cube-axes':
         # exactly: a cube, slice= given, and the result is the numpy slice of the LEADING two axes
         if not (c['op'] == 'window' and is3(c['a']) and c['slice'] is not None and 'err' not in impl):
@@ -1732,6 +1768,10 @@ def known_match(f, c, impl):
 
 
 def replay_known(f):
+    if f['id'] == 'C20-hexagon-vertex-float-tie':
+        lentil = C.import_lentil()
+        a = lentil.hexagon((3, 3), 1, rotate=True, antialias=False)
+        return a[0, 1] != a[2, 1]
     if f['id'] == 'C20-window-slice-cube-axes':
         lentil = C.import_lentil()
         out = lentil.window(np.arange(24.0).reshape(2, 3, 4), slice=(0, 1, 0, 2))
